@@ -90,6 +90,22 @@ func pointCandidates(r *mon.Rand, P ec.Point) []cand {
 		b[1+bit/8] ^= 1 << uint(bit%8)
 		put("unc/bitflip", b)
 	}
+	// near misses of the final comparison: ordinates whose square differs from the right-hand side in ONE
+	// 32-bit word only, by one unit of that word, in the Montgomery domain the comparison is made in
+	// (an equality test that skips or mis-combines a limb accepts exactly these)
+	delta := tracePoly(x).delta
+	for pos := 0; pos < 256; pos += 32 {
+		for _, sgn := range []int64{1, -1} {
+			d2 := add(delta, mul(bi(sgn), pow2(pos)))
+			if d2.Sign() < 0 || d2.Cmp(ec.P) >= 0 {
+				continue
+			}
+			if yy := ec.Sqrt(modP(mul(d2, montRinv))); yy != nil {
+				put(fmt.Sprintf("unc/y^2-near-miss-word%d", pos/32), cat(4, x, yy))
+				break
+			}
+		}
+	}
 	for _, p := range []byte{0, 1, 2, 3, 5, 6, 7, 0x84, 0xff} {
 		b := append([]byte{}, valid...)
 		b[0] = p
@@ -161,6 +177,28 @@ func fixedCandidates(ps *pointSet) []cand {
 		}
 		// with a y that makes the length and range right
 		put("unc/no-root-x", cat(4, v, ec.Gy))
+		// the would-be root z = rhs^((p+1)/4): z^2 = -rhs
+		z := new(big.Int).Exp(ec.RHS(v), new(big.Int).Rsh(add(ec.P, one), 2), ec.P)
+		put("unc/no-root-x,y=candidate-root", cat(4, v, z))
+	}
+	// near misses of the square-root check of the compressed form: for a non-residue the candidate root squares
+	// to -rhs; -rhs and rhs differ by one unit of the lowest word only when rhs*R is (p-1)/2 or (p+1)/2
+	half := new(big.Int).Rsh(ec.P, 1)
+	for _, d := range []*big.Int{half, add(half, one)} {
+		rhs := modP(mul(d, montRinv))
+		if big.Jacobi(rhs, ec.P) != -1 {
+			continue
+		}
+		for _, xv := range (cubic{modP(sub(ec.B, rhs))}).roots() {
+			if ec.RHS(xv).Cmp(rhs) != 0 {
+				panic("c05: near-miss construction is wrong")
+			}
+			for _, p := range []byte{2, 3} {
+				put("comp/no-root-near-miss", cat(p, xv))
+			}
+			z := new(big.Int).Exp(rhs, new(big.Int).Rsh(add(ec.P, one), 2), ec.P)
+			put("unc/no-root-near-miss,y=candidate-root", cat(4, xv, z))
+		}
 	}
 	return out
 }
